@@ -233,3 +233,5 @@ def run(ctx: Ctx):
             ctx.fail(cons + "#order", rem.loc(), "readiness is recomputed before Peer.connection is cleared")
     from .common_node import connect_failure_closes
     connect_failure_closes(ctx, "C13-R7")
+    from .common_node import ready_state_stores
+    ready_state_stores(ctx, "C13-R8")
